@@ -154,7 +154,7 @@ def validate_runs(ctx, prop, runs, what):
                     with open(cp, "w") as f:
                         f.write("SPECIFICATION TraceSpec\nCONSTANT Relax = {%s}\nCONSTRAINT HW\nPOSTCONDITION TraceAccepted\nCHECK_DEADLOCK FALSE\n"
                                 % ", ".join('"%s"' % e for e in sorted(relax)))
-            res = ctx.tlc("NsqdAbsTrace", cfg, workers=1, timeout=900, jvm=["-Xss512m"],
+            res = ctx.tlc("NsqdAbsTrace", cfg, workers=1, timeout=900, jvm=["-Xss512m", "-Xmx3g"],
                           files={r["trace"]: "trace.ndjson"}, label="trace:" + what, private=True, record=False)
             if (res.ok and "TRACE_OK" in res.out) or (res.crashed and not res.postcondition_false):
                 break
@@ -312,7 +312,7 @@ def repo_tests(ctx, prop, lanes=3):
     ctx.notes["repo_tests"] = {"listed": len(names), "with_trace": len(todo), "tests_not_passing": failed[:20]}
 
     def tlc_one(r):
-        res = ctx.tlc("NsqdAbsTrace", "NsqdAbsTrace.cfg", workers=1, timeout=900, jvm=["-Xss512m"],
+        res = ctx.tlc("NsqdAbsTrace", "NsqdAbsTrace.cfg", workers=1, timeout=900, jvm=["-Xss512m", "-Xmx3g"],
                       files={r["trace"]: "trace.ndjson"}, label="trace:repo-tests", private=True, record=False)
         return r, res
 
